@@ -1116,7 +1116,12 @@ where
     fn reset(&mut self) {
         self.key = None;
         self.map.clear();
-        self.stage = MapStage::Init;
+        // The body of an attribute has no opening event of its own (see `new_attr`).
+        self.stage = if self.is_attr_body {
+            MapStage::Between
+        } else {
+            MapStage::Init
+        };
         self.key_rec.reset();
         self.val_rec.reset();
     }
